@@ -35,6 +35,7 @@ HOOK_DEFS = [
     "-DURCU_VERIF_MIN_PARTITION_PER_THREAD_ORDER=vrt_param_min_partition_order",
     "-DURCU_VERIF_COUNT_COMMIT_ORDER=vrt_param_count_commit_order",
     "-DURCU_VERIF_INIT_READER_COUNT=vrt_param_init_reader_count",
+    "-DURCU_VERIF_SET_AFFINITY_CHECK_PERIOD=((unsigned int)vrt_param_affinity_period)",
 ]
 
 
